@@ -494,8 +494,8 @@ func (e *Eng) doCallInner(fr *Frame, st *State, instr ssa.Instruction, cc *ssa.C
 	if fc := e.w.Contracts[key]; fc != nil {
 		cargs := args
 		if len(fc.FreeVars) > 0 {
-			// closure contracts are stated over the captured variables (by name), read at the call
-			cargs = nil
+			// closure contracts are stated over the literal's parameters and the captured variables (by name)
+			cargs = append([]Val{}, args...)
 			for _, d := range fc.FreeVars {
 				for i, fv := range fn.FreeVars {
 					if fv.Name() == d.Name && i < len(bind) {
@@ -505,7 +505,7 @@ func (e *Eng) doCallInner(fr *Frame, st *State, instr ssa.Instruction, cc *ssa.C
 					}
 				}
 			}
-			if len(cargs) != len(fc.FreeVars) {
+			if len(cargs) != len(args)+len(fc.FreeVars) {
 				panic(unsupportedErr{"cannot bind captured variables of " + key})
 			}
 		}
